@@ -1105,7 +1105,10 @@ def g_roundtrip(fmt, tier, seed):
 #   kern-export-row-budget  save_kern raises IndexError for parts with many clefs/signatures: the output table has room
 #                           for notes + rests + measures + 12 rows, while every Clef, TimeSignature, KeySignature and
 #                           Tempo takes a row of its own - a part with 9 or more Clef objects (10+ staves) overflows
-FIXES_PENDING = ()  # (repaired in /repo: "kern-interp-line-inside-note" 7b7b2b6, "kern-more-spines-than-lines" d22454d, "kern-export-row-budget" 632abb0)
+#   kern-export-interleaved-chord  save_kern loses notes when, at one time point, the notes of one (voice, staff) spine are
+#                           not consecutive in the order of the timeline (a chord with members on staff 1, 2, 1: the third
+#                           note OVERWRITES the token of the first one instead of joining it)
+FIXES_PENDING = ("kern-export-interleaved-chord",)  # (repaired in /repo: "kern-interp-line-inside-note" 7b7b2b6, "kern-more-spines-than-lines" d22454d, "kern-export-row-budget" 632abb0)
 KERN_EXPORT_MAX_CLEFS = 9  # while kern-export-row-budget is pending: parts with more Clef objects are left out of roundtrip-kern-staves
 
 
@@ -1206,9 +1209,53 @@ def g_roundtrip_chordstaff(fmt, tier, seed):
                                   lf("r", 4)], home, other)
                     yield mk(_cs_slots(0, "tup", lambda v: _cs_chord(v, CS_PITCH[2], None, pst1)), home, other)
 
+    pending = fmt == "kern" and "kern-export-interleaved-chord" in FIXES_PENDING
     for c in family():
+        if fmt == "kern" and not _kern_streams_expressible(c["doc"]):
+            continue  # outside the quantifier: see _kern_streams_expressible
+        if pending and _interleaved_chord(c["doc"]):
+            continue
         if fmt == "mei" or tier == "thorough" or block_of(c, KERN_CHORDSTAFF_BLOCKS) == seed % KERN_CHORDSTAFF_BLOCKS:
             yield c
+
+
+def _kern_streams_expressible(doc):
+    """save_kern writes one spine per (voice, staff) pair and completes a pair that does not fill a measure with ONE rest
+    before its first and ONE after its last event (fill_rests(measurewise=False)).  It has no means to write a pair that
+    pauses between two of its events (e.g. a voice that visits the other staff in the middle of a measure and comes
+    back), and a rest that is not one note value is written wrongly: such parts are outside 'exportable by the writer'
+    (same border as roundtrip-kern-gaps and the placements of roundtrip-kern-staffmove)"""
+    single = set(_single_values(10 ** 6))
+    for st in doc["staves"]:
+        for ly in st["layers"]:
+            for mi in range(doc["nm"]):
+                home = ly["sm"][mi] if ly.get("sm") else st["n"]
+                spans, pos = {}, F(0)
+                for leaf, tup in M.flatten(ly["m"][mi]):
+                    d = M.leaf_dur(leaf, tup)
+                    if leaf["k"] != "s":
+                        for own in set(leaf.get("pst") or [None]):
+                            spans.setdefault(own or leaf.get("st") or home, []).append((pos, pos + d))
+                    pos += d
+                for iv in spans.values():
+                    if any(a[1] != b[0] for a, b in zip(iv, iv[1:])):
+                        return False  # the pair pauses between two of its events
+                    for gap in (iv[0][0], pos - iv[-1][1]):
+                        if gap and not ((gap * 4).denominator == 1 and int(gap * 4) in single):
+                            return False
+    return True
+
+
+def _interleaved_chord(doc):
+    """some chord has members on staff a, then b, then a again (in the order the Note objects are added to the part)"""
+    for st in doc["staves"]:
+        for ly in st["layers"]:
+            for m in ly["m"]:
+                for leaf, _ in M.flatten(m):
+                    runs = [k for k, _ in itertools.groupby(leaf.get("pst") or [])]
+                    if len(runs) != len(set(runs)):
+                        return True
+    return False
 
 
 # note values the library chooses itself: every single value (type x dots) of these lists
@@ -1658,8 +1705,13 @@ def spaces(tier, seed):
            "4-slot measure x plain/dotted quarter x the other events of the voice on staff 1/2 x second voice on staff 2 present/absent; two "
            "consecutive 2-member chords with all 4 x 4 assignments; the chord as middle member of an eighth triplet (4 assignments); a "
            "second measure of whole notes", "mei"),
-        sp("roundtrip-kern-chordstaff", g_roundtrip_chordstaff, "the same parts, save_kern -> load_kern; quick: hash block VERIF_SEED of %d, "
-           "thorough: all" % KERN_CHORDSTAFF_BLOCKS, "kern"),
+        sp("roundtrip-kern-chordstaff", g_roundtrip_chordstaff, "the same parts, save_kern -> load_kern, as far as the kern writer can express "
+           "them: every (voice, staff) pair is a spine that is continuous from its first to its last event of a measure and whose distance "
+           "to the barlines is one note value (the writer adds one rest there); parts in which the voice leaves a staff and comes back "
+           "within the measure (all members of an inner chord on the other staff) are outside; quick: hash block VERIF_SEED of %d, "
+           "thorough: all" % KERN_CHORDSTAFF_BLOCKS
+           + _pending_note("kern-export-interleaved-chord", "parts with a 3-member chord whose members are on staff 1, 2, 1 or 2, 1, 2 (save_kern "
+                           "drops the first member)"), "kern"),
         sp("roundtrip-mei-estimated", g_roundtrip_estimated, "1 voice, notes/chords/rests built WITHOUT symbolic_duration (the writer takes the note "
            "value the library estimates from the numeric duration), save_mei -> load_mei: every {note,chord,rest} x {breve..64th} x {0..3 dots} "
            "+ a quarter note with explicit value; all pairs over {note,rest} x {whole..16th} x {0..3 dots} + the quarter (quick: hash block "
